@@ -2506,3 +2506,197 @@ def rstep_area(chk, db, prefixes, rule="RSTEP"):
                           "when the loop is entered with %s == %s the cursor leaves the range downwards"
                           % (astx.loc(f, node), astx.show(node, 30), nm, bound, nm, bound), {"where": astx.loc(f)})
     return n
+
+
+# ---- FUNCPASS: a functor-taking overload hands its functor to every ordering / matching algorithm it calls --------------------
+def check_functor_passed(chk, f, rule="FUNCPASS"):
+    """returns None (no functor parameter / no such call) | list of (call, functor name) that drop the functor"""
+    fps = functor_params(f)
+    if not fps or f.get("body") is None:
+        return None
+    out = []
+    seen = False
+    for x in astx.all_exprs(f, into_lambdas=True):
+        if x.get("k") != "call":
+            continue
+        nm = astx.callee(x)[0]
+        if nm is None or default_of(nm) is None or astx.callee(x)[2] is not None:
+            continue
+        fn0 = astx.strip_casts(x["f"])
+        if fn0 is not None and fn0.get("k") == "ref" and fn0.get("d") in ("param", "local"):
+            continue        # the functor parameter itself happens to be named like an algorithm
+        seen = True
+        mentions = False
+        for a in x["a"]:
+            for y in astx.walk_expr(a, into_lambdas=True):
+                if y.get("k") == "ref" and y.get("n") in fps:
+                    mentions = True
+        # a functor object built on the spot (etl::less{}, a lambda) is a deliberate choice, not a dropped parameter
+        explicit = any(astx.strip_casts(a) is not None and astx.strip_casts(a).get("k") in ("lambda", "construct") for a in x["a"])
+        if not mentions and not explicit:
+            out.append((x, fps[0]))
+    return out if seen else None
+
+
+def functor_passed_area(chk, db, prefixes, rule="FUNCPASS"):
+    n = 0
+    for f in db.funcs:
+        if f.get("body") is None or not any(f["file"].startswith(p) for p in prefixes):
+            continue
+        r = check_functor_passed(chk, f, rule)
+        if r is None:
+            continue
+        n += 1
+        construct = astx.sig(f)
+        chk.instance(rule)
+        chk.obligation(rule, construct, not r)
+        for call, fp in r[:2]:
+            chk.violation(rule, construct, "functor-dropped",
+                          "%s: `%s` is called without the functor `%s` this overload was given: that step uses the default "
+                          "ordering / equality instead of the caller's" % (astx.loc(f, call), astx.show(call, 70), fp), {"where": astx.loc(f)})
+    return n
+
+
+# ---- TIEMOVE: stable algorithms reorder two elements only where the functor says strictly-less -------------------------------
+STABLE_ALGOS = {"inplace_merge", "merge", "stable_sort", "insertion_sort", "merge_sort", "bubble_sort", "gnome_sort", "stable_partition",
+                "set_union", "set_intersection", "set_difference", "set_symmetric_difference"}
+REORDER_CALLS = {"rotate", "iter_swap", "swap", "swap_ranges", "reverse", "move_backward", "exchange"}
+
+
+def _comp_facts(c, taken, fps):
+    """[(call node, truth)] of functor calls whose value is known when condition c evaluates to `taken`"""
+    c = astx.strip_casts(c)
+    if c is None:
+        return []
+    if c.get("k") == "un" and c.get("op") == "!":
+        return _comp_facts(c["e"], not taken, fps)
+    if c.get("k") == "bin" and c["op"] == "&&":
+        return _comp_facts(c["l"], True, fps) + _comp_facts(c["r"], True, fps) if taken else []
+    if c.get("k") == "bin" and c["op"] == "||":
+        return _comp_facts(c["l"], False, fps) + _comp_facts(c["r"], False, fps) if not taken else []
+    if c.get("k") == "call":
+        fn = astx.strip_casts(c["f"])
+        if fn is not None and fn.get("k") == "ref" and fn.get("n") in fps:
+            return [(c, taken)]
+        if astx.callee(c)[0] == "invoke" and c["a"] and ref_name(c["a"][0]) in fps:
+            return [(c, taken)]
+    return []
+
+
+def check_tie_move(chk, f, rule="TIEMOVE", names=STABLE_ALGOS):
+    """returns None (not a stable algorithm with a functor-guarded reordering) | list of (reorder call, functor call)"""
+    if f.get("body") is None or f["n"] not in names:
+        return None
+    fps = functor_params(f)
+    if not fps:
+        return None
+    bad = []
+    subject = False
+    for p in SP.paths(f["body"]):
+        facts = []          # functor facts in force (reset at a back edge: a new pair of elements is compared)
+        for ev in p:
+            if ev[0] == "cond":
+                fs = _comp_facts(ev[1], ev[2], fps)
+                if fs:
+                    facts = fs
+            elif ev[0] == "backedge-cond":
+                facts = []
+            exprs = []
+            if ev[0] in ("expr", "ret") and len(ev) > 1 and ev[1] is not None:
+                exprs.append(ev[1])
+            if ev[0] == "decl" and ev[1].get("init") is not None:
+                exprs.append(ev[1]["init"])
+            for e in exprs:
+                for x in astx.walk_expr(e):
+                    if x.get("k") == "call" and astx.callee(x)[0] in REORDER_CALLS and facts:
+                        subject = True
+                        if all(t is False for _c, t in facts) and not any(b[0] is x for b in bad):
+                            bad.append((x, facts[0][0]))
+    return bad if subject else None
+
+
+def tie_move_area(chk, db, prefixes, rule="TIEMOVE"):
+    n = 0
+    for f in db.funcs:
+        if f.get("body") is None or not any(f["file"].startswith(p) for p in prefixes):
+            continue
+        r = check_tie_move(chk, f, rule)
+        if r is None:
+            continue
+        n += 1
+        construct = astx.sig(f)
+        chk.instance(rule)
+        chk.obligation(rule, construct, not r)
+        for call, cmpc in r[:2]:
+            chk.violation(rule, construct, "reorders-equivalent-elements",
+                          "%s: `%s` reorders elements on a path on which `%s` is false, which includes equivalent elements: a stable "
+                          "algorithm moves an element in front of another only where the functor orders it strictly before"
+                          % (astx.loc(f, call), astx.show(call, 50), astx.show(cmpc, 50)), {"where": astx.loc(f)})
+    return n
+
+
+# ---- TYPEDFUN: a comparison functor fixed to one template parameter is not applied to an operand of another ------------------
+TYPED_FUNCTOR = re.compile(r"\b(equal_to|not_equal_to|less|greater|less_equal|greater_equal)\s*<\s*([A-Za-z_]\w*)\s*>")
+
+
+def check_typed_functor(chk, f, rule="TYPEDFUN"):
+    """`equal_to<T>{}(a, b)` converts both operands to T before comparing. Inside a template whose operands are declared with
+    different type parameters (optional<T> x optional<U>, T x optional<U>) that conversion changes the answer where U -> T is
+    lossy; the heterogeneous comparison is `a == b` itself or a transparent functor (equal_to<>).
+    returns None (function has fewer than two type parameters) | list of (call, functor type, operand, its parameter type)"""
+    tps = [tp["n"] for tp in (f.get("tparams") or []) if tp.get("k") == "type"]
+    if len(tps) < 2 or f.get("body") is None:
+        return None
+    ptypes = dict((p["n"], p["ty"]) for p in f["params"])
+    out = []
+    for x in astx.all_exprs(f, into_lambdas=True):
+        if x.get("k") != "call":
+            continue
+        fn = astx.strip_casts(x["f"])
+        if fn is None or fn.get("k") != "construct":
+            continue
+        m = TYPED_FUNCTOR.search(fn.get("ty", ""))
+        if not m or m.group(2) not in tps:
+            continue
+        fixed = m.group(2)
+        for a in x["a"]:
+            roots = [y for y in astx.walk_expr(a) if y.get("k") == "ref" and y.get("d") == "param" and y["n"] in ptypes]
+            for r in roots:
+                mentioned = set(t for t in tps if re.search(r"\b%s\b" % re.escape(t), ptypes[r["n"]]))
+                if mentioned and fixed not in mentioned:
+                    out.append((x, fn.get("ty", ""), a, ptypes[r["n"]]))
+                    break
+    return out
+
+
+def typed_functor_area(chk, db, prefixes, rule="TYPEDFUN"):
+    n = 0
+    for f in db.funcs:
+        if f.get("body") is None or not any(f["file"].startswith(p) for p in prefixes):
+            continue
+        r = check_typed_functor(chk, f, rule)
+        if r is None:
+            continue
+        n += 1
+        construct = astx.sig(f)
+        chk.instance(rule)
+        chk.obligation(rule, construct, not r)
+        if not r:
+            continue
+        call, fty, arg, pty = r[0]
+        chk.violation(rule, construct, "operand-converted",
+                      "%s: `%s` converts `%s` (declared `%s`) to the functor's fixed argument type before comparing; the "
+                      "standard compares the two values as they are (`a == b`), so a lossy conversion changes the result"
+                      % (astx.loc(f, call), astx.show(call, 60), astx.show(arg, 30), pty), {"where": astx.loc(f)})
+    return n
+
+
+def typed_functor_control(chk, D):
+    import os
+    fx_path = os.path.join(D.VERIF, "fixtures", "arith_pos.hpp")
+    fx = D.load_source('#include "%s"\n' % fx_path, root=os.path.dirname(fx_path) + "/", tag="fixture-arith")
+    fxf = dict((g["n"], g) for g in fx.funcs)
+    if not ("same_value" in fxf and check_typed_functor(chk, fxf["same_value"])):
+        chk.analysis_broken("TYPEDFUN: the positive control fixture::same_value was not reported")
+    if "same_value_plain" not in fxf or check_typed_functor(chk, fxf["same_value_plain"]):
+        chk.analysis_broken("TYPEDFUN: the negative control fixture::same_value_plain was reported")
